@@ -511,6 +511,15 @@ def rule_axis(prog: Program, modules: Set[str]) -> List[Instance]:
                         out.append(Instance("R-AXIS", cid, OK, "symmetric x/y average", fi.where(n), nontrivial=False))
                     else:
                         out.append(Instance("R-AXIS", cid, BAD, f"`{short(n, 70)}` adds/subtracts an {l} and a {r} quantity", fi.where(n)))
+            # ---------------- T5 (iv): integer division / modulo across axes (an index computation, not a ratio)
+            if isinstance(n, ast.BinOp) and isinstance(n.op, (ast.FloorDiv, ast.Mod)):
+                l, r = ty.tag(n.left), ty.tag(n.right)
+                if l and r:
+                    cid = _cid(fi, "T5:floordiv", n, counter)
+                    if l == r:
+                        out.append(Instance("R-AXIS", cid, OK, f"{l} // {r}", fi.where(n)))
+                    else:
+                        out.append(Instance("R-AXIS", cid, BAD, f"`{short(n, 60)}` divides an {l} quantity by a {r} quantity: a tile/bin index computed with the other axis' size", fi.where(n)))
             # ---------------- T5 (ii): coordinate vs extent of the other axis
             if isinstance(n, ast.Compare) and len(n.ops) == 1 and isinstance(n.ops[0], (ast.Lt, ast.LtE, ast.Gt, ast.GtE)):
                 l, r = n.left, n.comparators[0]
